@@ -25,7 +25,7 @@ PayloadStep(e, s) ==
   ELSE IF e.input # AnnexB(e.units, e.scs) THEN [reason |-> "harness_input", s |-> s]
   \* the access units lie in one caller buffer: a call must not write into its window nor into what lies behind it
   ELSE IF ~e.stream_intact THEN [reason |-> "wrote_into_callers_stream_buffer", s |-> s]
-  ELSE LET m == MatchItems(it.items, 1, e.frags, 1, s.mtu) IN
+  ELSE LET m == MatchItems(it.items, 1, e.frags, 1, e.mtu) IN      \* the MTU is an argument of every call and may change between calls
        IF m # "" THEN [reason |-> m, s |-> s]
        ELSE LET rr == RxReason(s.rx, e.frags, e.deps, 1) IN
             IF rr.reason # "" THEN [reason |-> rr.reason, s |-> s]
